@@ -192,7 +192,11 @@ func (eng *Engine) Verify(fn *ssa.Function, spec *FuncSpec, tags map[string]bool
 				if !e.wantClause(c) {
 					continue
 				}
-				t := e.evalSpec(eng.ld.specFunc(spec, c), full, hout, h0)
+				pre := h0
+				if c.SinceLock != "" {
+					pre = e.lockSnapshot(hout, c.SinceLock)
+				}
+				t := e.evalSpec(eng.ld.specFunc(spec, c), full, hout, pre)
 				e.addObligation(f, "ensures", c, labelOr(c, fmt.Sprintf("ensures.L%d", c.Line)), gout, t, fn.Pos())
 			case KReturns:
 				if !e.wantClause(c) {
